@@ -127,6 +127,7 @@ func runLockRules(p *core.Prog, rep *core.Report, withDatatype bool) *lockset {
 			core.Failf("vacuity guard: expected >= 15 DataTypeService methods, found %d", n)
 		}
 	}
+	lk9Scratch(p, rep)
 	l.checkOrder()
 	l.flush()
 	var g []string
@@ -271,12 +272,12 @@ func C08(p *core.Prog, rep *core.Report) {
 	_ = l
 	// C08 keeps the clauses its mechanism list names: LK3, LK4, LK7 (per-shard atomicity), TB2 (positions immutable)
 	for k, v := range full.Rules {
-		if k == "LK3" || k == "LK4" || k == "LK7" || k == "LK5" {
+		if k == "LK3" || k == "LK4" || k == "LK7" || k == "LK5" || k == "LK9" {
 			rep.Rule(k, v)
 		}
 	}
 	for _, o := range full.Obls {
-		keep := o.Rule == "LK3" || o.Rule == "LK4" || o.Rule == "LK7" || (o.Rule == "LK5" && (strings.Contains(o.Construct, "ShardedIndex") || strings.Contains(o.Construct, "(*xixi_kv.DB).Put") || strings.Contains(o.Construct, "(*xixi_kv.DB).Delete") || strings.Contains(o.Construct, "(*xixi_kv.DB).Get")))
+		keep := o.Rule == "LK3" || o.Rule == "LK4" || o.Rule == "LK7" || o.Rule == "LK9" || (o.Rule == "LK5" && (strings.Contains(o.Construct, "ShardedIndex") || strings.Contains(o.Construct, "(*xixi_kv.DB).Put") || strings.Contains(o.Construct, "(*xixi_kv.DB).Delete") || strings.Contains(o.Construct, "(*xixi_kv.DB).Get")))
 		if keep {
 			rep.Add(*o)
 		}
@@ -287,4 +288,39 @@ func C08(p *core.Prog, rep *core.Report) {
 	tb2FilesStayOpen(p, rep)
 	rep.Assumptions = append(rep.Assumptions, "see C09 for the lock-analysis assumptions (access-path identity, fresh contexts)")
 	rep.NotCovered = append(rep.NotCovered, "per-key linearizability of all interleavings; agreement of the live view with recovery for all schedules (only the lock discipline that both rest on is decided)")
+}
+
+// lk9Scratch: a scratch DB built by a shared-context function does not share mutable buffers with the live one.
+func lk9Scratch(p *core.Prog, rep *core.Report) {
+	rep.Rule("LK9", "scratch isolation: when a library function other than Open constructs a fresh DB (Merge's scratch database, used without any lock), every slice / map / pointer field of it is initialised from an allocation of that function, never from a field of the live database (whose buffers are mutated under db.mu)")
+	n := 0
+	var bad []string
+	for _, fn := range p.LibFuncs() {
+		if !inRootPkg(fn) || fn.Name() == "Open" {
+			continue
+		}
+		for _, b := range fn.Blocks {
+			for _, in := range b.Instrs {
+				f, base, val := core.StoreField(in)
+				if f == nil || fieldOwner(p, f) != p.R.DB || !freshInFn(base, fn) {
+					continue
+				}
+				switch f.Type().Underlying().(type) {
+				case *types.Slice, *types.Map, *types.Pointer:
+				default:
+					continue
+				}
+				n++
+				for _, o := range core.Origins(val) {
+					if lf, lb := core.LoadedField(o); lf != nil && fieldOwner(p, lf) == p.R.DB && !freshInFn(lb, fn) {
+						bad = append(bad, fmt.Sprintf("%s initialises the scratch database's %s from the live database's %s at %s: the unlocked scratch user and locked writers share one buffer", core.FuncKey(fn), f.Name(), lf.Name(), p.InstrPos(in)))
+					}
+				}
+			}
+		}
+	}
+	if n < 2 {
+		core.Failf("vacuity guard: LK9 expected >= 2 reference-typed fields initialised on a scratch DB, found %d", n)
+	}
+	rep.Check(len(bad) == 0, "LK9", "scratch-db-isolated", fmt.Sprintf("all %d reference-typed fields of scratch databases are private", n), "", strings.Join(bad, "; "), true)
 }
